@@ -302,6 +302,7 @@ type wWriter interface {
 	columnWriters() []*parquet.ColumnWriter
 	reset(out io.Writer)
 	setKV(k, v string)
+	writeRowGroup(rg parquet.RowGroup) (int64, error)
 }
 
 type wGeneric struct{ w *parquet.GenericWriter[wRow] }
@@ -312,6 +313,9 @@ func (g wGeneric) close() error                           { return g.w.Close() }
 func (g wGeneric) columnWriters() []*parquet.ColumnWriter { return g.w.ColumnWriters() }
 func (g wGeneric) reset(out io.Writer)                    { g.w.Reset(out) }
 func (g wGeneric) setKV(k, v string)                      { g.w.SetKeyValueMetadata(k, v) }
+func (g wGeneric) writeRowGroup(rg parquet.RowGroup) (int64, error) {
+	return g.w.WriteRowGroup(rg)
+}
 
 type wAny struct {
 	w    *parquet.Writer
@@ -338,6 +342,9 @@ func (a wAny) close() error                           { return a.w.Close() }
 func (a wAny) columnWriters() []*parquet.ColumnWriter { return a.w.ColumnWriters() }
 func (a wAny) reset(out io.Writer)                    { a.w.Reset(out) }
 func (a wAny) setKV(k, v string)                      { a.w.SetKeyValueMetadata(k, v) }
+func (a wAny) writeRowGroup(rg parquet.RowGroup) (int64, error) {
+	return a.w.WriteRowGroup(rg)
+}
 
 func wNew(api string, out io.Writer, opts []parquet.WriterOption) wWriter {
 	switch api {
